@@ -78,7 +78,7 @@ struct th {
 	int timed, timedout;
 	long prio;
 	/* Mode A flags, written by the thread itself, read by the monitor */
-	int a_blocked, a_timed;
+	int a_blocked, a_timed, a_slot; unsigned a_vgen;
 	int *a_addr;
 	int in_round;
 	const char *op;
@@ -306,7 +306,9 @@ static void write_witness (const char *oracle, const char *signature, const char
 			 mode_b ? st_names[T[i].state] : (T[i].state == ST_DONE ? "DONE" : (T[i].a_blocked ? (T[i].a_timed ? "BLOCKED_TIMED" : "BLOCKED") : st_names[T[i].state])));
 		json_str (f, T[i].op ? T[i].op : "");
 		fprintf (f, ",\"at\":"); json_str (f, T[i].at ? T[i].at : "");
-		fprintf (f, ",\"timed\":%d,\"sleeps\":%lu,\"api_deadline_ns\":%lld}", mode_b ? T[i].timed : T[i].a_timed, T[i].sleeps, (long long) (T[i].op ? T[i].op_deadline_ns : 0));
+		fprintf (f, ",\"timed\":%d,\"sleeps\":%lu,\"api_deadline_ns\":%lld", mode_b ? T[i].timed : T[i].a_timed, T[i].sleeps, (long long) (T[i].op ? T[i].op_deadline_ns : 0));
+		if (!mode_b) fprintf (f, ",\"sem_count\":%d", T[i].a_addr ? *T[i].a_addr : -1);
+		fprintf (f, "}");
 	}
 	fprintf (f, "]");
 	if (rt_scen.describe) { fprintf (f, ",\"round_description\":"); rt_scen.describe (f); }
@@ -495,6 +497,8 @@ static void a_perturb (int site) {
 /* snapshot for quiescence: returns 1 if every participant other than `self` is done, or
    waiting for quiescence, or blocked without deadline on a futex word that still holds the
    value it went to sleep on, and nothing moved while we looked. */
+static int binsem_on;
+static int bs_settled (int i);
 static int a_quiescent_snapshot (int self, int *n_blocked, int *n_waitq) {
 	uint64_t c0 = __atomic_load_n (&g_stamp, __ATOMIC_ACQUIRE);
 	int nb = 0, nq = 0;
@@ -505,6 +509,7 @@ static int a_quiescent_snapshot (int self, int *n_blocked, int *n_waitq) {
 		if (st == ST_WAITQ) { nq++; continue; }
 		if (!__atomic_load_n (&T[i].a_blocked, __ATOMIC_ACQUIRE)) return (0);
 		if (__atomic_load_n (&T[i].a_timed, __ATOMIC_ACQUIRE)) return (0);
+		if (binsem_on && !bs_settled (i)) return (0);
 		int *a = __atomic_load_n (&T[i].a_addr, __ATOMIC_ACQUIRE);
 		if (a == NULL || __atomic_load_n (a, __ATOMIC_ACQUIRE) != T[i].wval) return (0);
 		nb++;
@@ -759,33 +764,75 @@ void wrap_cpp_panic (const char *s) { do_panic (s); }
    was started with --param binsem=1. */
 static int binsem;
 void __real_nsync_mu_semaphore_p (void *s) __attribute__ ((weak));
+void __real_nsync_mu_semaphore_v (void *s) __attribute__ ((weak));
 int __real_nsync_mu_semaphore_p_with_deadline (void *s, struct timespec d) __attribute__ ((weak));
 struct binsem_layout { pthread_mutex_t mu; pthread_cond_t cv; int i; };
-void __wrap_nsync_mu_semaphore_p (void *s) {
-	if (me < 0 || !binsem) { __real_nsync_mu_semaphore_p (s); return; }
+/* The binary semaphore consumes a post INSIDE the real P, before the wrapper can clear a_blocked, so "blocked on a count of 0"
+   alone does not mean asleep (a woken thread preempted right there looked asleep to the Mode A quiescence detector: a false
+   lost-wakeup under heavy load).  Posts are therefore counted per semaphore (started / done).  A P starts its bookkeeping only
+   when no post is in progress on its semaphore, and remembers how many had started; the thread counts as asleep only if no
+   post has STARTED on its semaphore since then and the count is 0 (posts that finished earlier were either consumed by an
+   earlier P or have left the count at 1, which the entry test sees).  (A thread uses more than one semaphore: nsync_mu_lock inside a cancellable
+   wait takes a second waiter from the pool, and pool waiters move between threads -- hence per semaphore, not per thread.)  */
+#define BS_N 1024
+static struct { void *key; unsigned vstart, vdone; } bs[BS_N];
+static int bs_slot (void *a) {
+	size_t h = (((uintptr_t) a) >> 4) % BS_N;
+	for (int n = 0; n < BS_N; n++, h = (h + 1) % BS_N) {
+		void *k = __atomic_load_n (&bs[h].key, __ATOMIC_ACQUIRE);
+		if (k == a) return ((int) h);
+		if (k == NULL) { void *e = NULL; if (__atomic_compare_exchange_n (&bs[h].key, &e, a, 0, __ATOMIC_ACQ_REL, __ATOMIC_ACQUIRE) || e == a) return ((int) h); }
+	}
+	rt_fatal ("binary-semaphore table full");
+	return (0);
+}
+static int bs_settled (int i) {
+	return (__atomic_load_n (&bs[T[i].a_slot].vstart, __ATOMIC_SEQ_CST) == T[i].a_vgen);
+}
+static void bs_enter (void *s, int timed) {
+	int *a = &((struct binsem_layout *) s)->i;
+	int sl = bs_slot (a);
+	unsigned s0;
+	for (;;) { s0 = __atomic_load_n (&bs[sl].vstart, __ATOMIC_SEQ_CST); if (__atomic_load_n (&bs[sl].vdone, __ATOMIC_SEQ_CST) == s0) break; raw_yield (); }
 	T[me].wval = 0;
-	__atomic_store_n (&T[me].a_addr, &((struct binsem_layout *) s)->i, __ATOMIC_RELEASE);
-	__atomic_store_n (&T[me].a_timed, 0, __ATOMIC_RELEASE);
-	__atomic_store_n (&T[me].a_blocked, 1, __ATOMIC_RELEASE);
+	T[me].a_slot = sl;
+	T[me].a_vgen = s0;
+	__atomic_store_n (&T[me].a_addr, a, __ATOMIC_RELEASE);
+	__atomic_store_n (&T[me].a_timed, timed, __ATOMIC_RELEASE);
+	__atomic_store_n (&T[me].a_blocked, 1, __ATOMIC_SEQ_CST);
 	__atomic_fetch_add (&g_stamp, 1, __ATOMIC_ACQ_REL);
-	__real_nsync_mu_semaphore_p (s);
+	/* a post that finished earlier and was not consumed has left the count at 1 (only this thread consumes it): not a sleep */
+	if (__atomic_load_n (a, __ATOMIC_SEQ_CST) != 0) __atomic_store_n (&T[me].a_blocked, 0, __ATOMIC_RELEASE);
+}
+static void bs_leave (void) {
 	__atomic_fetch_add (&g_stamp, 1, __ATOMIC_ACQ_REL);
 	__atomic_store_n (&T[me].a_blocked, 0, __ATOMIC_RELEASE);
 	T[me].sleeps++; T[me].op_sleeps++;
 }
+void __wrap_nsync_mu_semaphore_p (void *s) {
+	if (me < 0 || !binsem) { __real_nsync_mu_semaphore_p (s); return; }
+	bs_enter (s, 0);
+	__real_nsync_mu_semaphore_p (s);
+	bs_leave ();
+}
 int __wrap_nsync_mu_semaphore_p_with_deadline (void *s, struct timespec d) {
 	if (me < 0 || !binsem) return (__real_nsync_mu_semaphore_p_with_deadline (s, d));
-	int untimed = ((int64_t) d.tv_sec > INT64_MAX / 2);   /* nsync_time_no_deadline */
-	T[me].wval = 0;
-	__atomic_store_n (&T[me].a_addr, &((struct binsem_layout *) s)->i, __ATOMIC_RELEASE);
-	__atomic_store_n (&T[me].a_timed, !untimed, __ATOMIC_RELEASE);
-	__atomic_store_n (&T[me].a_blocked, 1, __ATOMIC_RELEASE);
-	__atomic_fetch_add (&g_stamp, 1, __ATOMIC_ACQ_REL);
+	bs_enter (s, !((int64_t) d.tv_sec > INT64_MAX / 2) /* nsync_time_no_deadline is untimed */);
 	int r = __real_nsync_mu_semaphore_p_with_deadline (s, d);
-	__atomic_fetch_add (&g_stamp, 1, __ATOMIC_ACQ_REL);
-	__atomic_store_n (&T[me].a_blocked, 0, __ATOMIC_RELEASE);
-	T[me].sleeps++; T[me].op_sleeps++;
+	bs_leave ();
 	return (r);
+}
+void __wrap_nsync_mu_semaphore_v (void *s) {
+	if (binsem && !mode_b) {
+		int sl = bs_slot (&((struct binsem_layout *) s)->i);
+		__atomic_fetch_add (&bs[sl].vstart, 1, __ATOMIC_SEQ_CST);
+		__atomic_fetch_add (&g_stamp, 1, __ATOMIC_ACQ_REL);
+		__real_nsync_mu_semaphore_v (s);
+		__atomic_fetch_add (&bs[sl].vdone, 1, __ATOMIC_SEQ_CST);
+		__atomic_fetch_add (&g_stamp, 1, __ATOMIC_ACQ_REL);
+		return;
+	}
+	__real_nsync_mu_semaphore_v (s);
 }
 
 /* wrappers: malloc (linked with --wrap=malloc only by the checks that need it) */
@@ -929,7 +976,7 @@ int main (int argc, char **argv) {
 		else if (!strcmp (a, "--param")) { const char *eq = strchr (v, '='); if (eq && n_params < 32) { size_t n = (size_t) (eq - v); if (n > 47) n = 47; memcpy (params[n_params].name, v, n); params[n_params].name[n] = 0; params[n_params].v = strtol (eq + 1, NULL, 0); n_params++; } i++; }
 		else { fprintf (stderr, "unknown argument %s\n", a); return (2); }
 	}
-	binsem = (int) rt_param ("binsem", 0);
+	binsem = (int) rt_param ("binsem", 0); binsem_on = binsem && !mode_b;
 	ring_on = mode_b || rt_param ("ring", 0);
 	if (rt_scen.max_threads > RT_MAXT) rt_fatal ("max_threads too large");
 	if (__sanitizer_set_death_callback) __sanitizer_set_death_callback (on_sanitizer_death);
